@@ -386,6 +386,22 @@ func c13FieldOwner(c *Ctx, fld *types.Var) {
 		if call, ok := v.(*ssa.Call); ok {
 			_, isAcq = providerCall(p, call, "Acquire")
 		}
+		// a local that holds the acquire result of whichever branch ran (`compressor = w` in each case)
+		if !isAcq {
+			srcs := p.sources(s.store.Val, provDefault)
+			all := len(srcs) > 0
+			for _, src := range srcs {
+				call, ok := strip(src).(*ssa.Call)
+				if !ok {
+					all = false
+					break
+				}
+				if _, acq := providerCall(p, call, "Acquire"); !acq {
+					all = false
+				}
+			}
+			isAcq = all
+		}
 		fa := s.store.Addr.(*ssa.FieldAddr)
 		fresh := false
 		for _, src := range p.sources(fa.X, provDefault) {
